@@ -530,7 +530,10 @@ var messageCheck = &core.Check{Name: "c04/message", Quick: 4000, Thorough: 30000
 		if c.Bool("split") {
 			d := uint8(c.Intn("splitv", 32))
 			si.SplitDepth = &d
-			ti.SplitDepth.Exists, ti.SplitDepth.Value = true, tlb.Uint5(d)
+			// set through reflection: the check must still build (and judge the layout) when the declared
+			// width of the field is changed
+			ti.SplitDepth.Exists = true
+			reflect.ValueOf(&ti.SplitDepth.Value).Elem().SetUint(uint64(d))
 		}
 		if c.Bool("special") {
 			sp := [2]bool{c.Bool("tick"), c.Bool("tock")}
